@@ -22,7 +22,7 @@ const (
 	cR1 = 4 // vChild  relation, zero size
 	cR2 = 5 // vChild2 relation with payload
 	vNC = 6
-	vNE = 15 // tracked handles
+	vNE = 18 // tracked handles
 )
 
 type vEnt struct {
